@@ -1,5 +1,8 @@
 import UsualProofs.C12.Step
 /-! `step` refines the byte-vector specification (`StepRefines`). -/
+set_option linter.unusedSimpArgs false
+set_option linter.unusedVariables false
+
 namespace UsualProofs.C12
 open Usual.C12
 
